@@ -148,6 +148,14 @@ impl Scenario {
                 }
                 Slot::Corrupt => {
                     let b = corrupt(rng, payload);
+                    // a burst that was cut short also ENDS early: the link is idle (and polls the assembler) for the
+                    // rest of the slot, so a pending decode error can come out before the next burst arrives
+                    let (t, busy) = if b.len() < payload.len() {
+                        let t = self.cursor + 8 * (16 + b.len() as u64) + lat;
+                        (t, t - (self.cursor + 40))
+                    } else {
+                        (t, busy)
+                    };
                     self.bursts.push((format!("x{}", idx), b, t, busy));
                 }
                 Slot::Absent => {}
